@@ -409,7 +409,15 @@ def _generator_cm(chk, ix, cm):
     yields = g.nodes_where(lambda s: any(isinstance(x, (ast.Yield, ast.YieldFrom)) for x in walk_expr(s))
                            and not isinstance(s, (ast.Try, ast.With, ast.If, ast.For, ast.While)))
     if len(yields) > 1:
-        raise AnalysisError(f"{cm.short}: expected at most one yield, found {len(yields)}")
+        # several yields (e.g. one per branch): the obligations concern the yields that can be reached after the flag was
+        # written - a branch that leaves the flag alone has nothing to restore
+        flag_stores = {n for n, s in g.stmt.items() if isinstance(s, ast.Assign)
+                       and any(isinstance(t, ast.Attribute) and t.attr == FLAG for t in s.targets)}
+        after_write = {y for y in yields if any(y in g.reachable(n, exceptional=False) for n in flag_stores)}
+        if len(after_write) != 1:
+            raise AnalysisError(f"{cm.short}: {len(yields)} yields, {len(after_write)} of them after a write of the "
+                                f"mode flag - a shape the checker cannot classify")
+        yields = after_write
     ynode = next(iter(yields)) if yields else None
     # saved variable: local assigned from a flag load before the set
     saves = {}
